@@ -22,7 +22,8 @@ Sequence lines:
   gauge.exts    eid:denom:avail:act;…
   gauge.bals    denom:amt;…
   gauge.paid    denom:farmer:amt;…
-Monitors (on REAL values): split_sum zero_epochs epoch_cap cumulative_cap farmer_share farmer_share_1e12 custody float_hyp
+Monitors (on REAL values): split_sum zero_epochs epoch_cap cumulative_cap farmer_share farmer_share_1e12 custody
+  custody_ext_overpaid float_hyp
 -/
 -- DRIVER: prefix=gauge ns=Comdex.Drv.Gauge
 namespace Comdex.Drv.Gauge
@@ -306,15 +307,19 @@ def gaugeMons (tag : String) (prev : List GRec) (real : List GRec) : List String
         if ok && decide (r.g.deposit = p.g.deposit) then [] else [s!"MON\t{tag}\tepoch_cap\tgauge={r.gid}"]
     out ++ o1 ++ o2) []
 
-/-- custody per denomination; swap-fee gauges count with their whole (undistributed) deposit -/
+/-- custody per denomination; swap-fee gauges count with their whole (undistributed) deposit.
+`custody`: the proved ledger invariant (signed sum of all remainders ≤ balance, every gauge within its deposit).
+`custody_ext_overpaid`: the extra hypothesis of `custody_ge_active_remaining` — no programme has paid more than it
+had; together they are the clause as worded. -/
 def custodyMons (tag : String) (st : St) : List String :=
   (denomsOf st).foldl (fun out d =>
     let gs := (st.gs.filter (·.denom = d)).map (fun r => if r.sf then { r.g with distributed := 0 } else r.g)
     let xs := (extsOf st d).map (·.x)
     let nonSf := (gaugesOf st d).map (·.g)
-    let ok := decide (remGauges gs + remExts xs ≤ lookupBal st.bals d)
-                && xs.all (fun x => decide (0 ≤ x.avail)) && nonSf.all gaugeOk
-    if ok then out else out ++ [s!"MON\t{tag}\tcustody\tdenom={d}"]) []
+    let ok := decide (remGauges gs + remExts xs ≤ lookupBal st.bals d) && nonSf.all gaugeOk
+    let okx := xs.all (fun x => decide (0 ≤ x.avail))
+    out ++ (if ok then [] else [s!"MON\t{tag}\tcustody\tdenom={d}"])
+        ++ (if okx then [] else [s!"MON\t{tag}\tcustody_ext_overpaid\tdenom={d}"])) []
 
 /-- bank-side epoch cap: what left the module account in this block is covered by the allocations of the
 gauges that advanced plus what the external programmes booked as paid -/
@@ -389,6 +394,9 @@ def handle (st : St) (seq : String) (f : List String) : St × List String :=
             | ["ok", csv] => match csvNats csv with
               | some real => if splitMon dep.toNat total real then [] else [s!"MON\t{seq}\tsplit_sum\tgauge={gid}"]
               | none => [s!"BAD\t{seq}\tcreate split"]
+            -- a deposit ≥ 2^64 has no split at all (`Uint64()` panics in every begin blocker, which is rolled back:
+            -- nothing is ever paid; a liveness matter for C15, see notes/C19.md) — no allocation to check
+            | ["none"] => []
             | _ => [s!"MON\t{seq}\tsplit_sum\tgauge={gid}"]
         (st', d ++ mon)
       else (st, d)
